@@ -1,21 +1,111 @@
 package main
 
 import (
+	"bytes"
 	"encoding/json"
 	"errors"
 	"flag"
 	"fmt"
+	"io"
 	"math/rand"
+	"reflect"
 	"runtime"
 	"sync"
 	"sync/atomic"
 
+	"nhooyr.io/websocket"
 	"verifharness/ws"
 )
 
 // ---- family: cut (C04) ----
 // Every byte offset of every TLC-generated valid stream is used as the point where the
 // transport ends (EOF) or fails (error); the outcome is compared with WSRecv!RunCut.
+
+// checkCutAdapters judges the two adapters over Conn.Reader (anchors netconn.go, wsjson/wsjson.go): whatever they deliver before
+// the cut is what the complete messages said, the message that was cut is never reported as a value / never ends the stream
+// cleanly, and the call that meets the cut fails.
+func checkCutAdapters(rep *Report, id caseID, ls []letter, exp *cutExp, cs *concStream, o *recvObs, ncType websocket.MessageType) {
+	if o.finalErr == nil {
+		rep.miss("no-final-error", id, "reader loop ended without error")
+		return
+	}
+	switch id.V.API {
+	case "wsjson":
+		var want []interface{}
+		nmsg := 0
+		for _, e := range exp.Msgs {
+			if e.O != "msg" {
+				continue
+			}
+			nmsg++
+			var v interface{}
+			if json.Unmarshal(cs.msgBytes(ls, e.Fr), &v) != nil { // (wsjson.Read does not look at the message type)
+				nmsg = -1
+				break // wsjson.Read fails here (and closes the connection): nothing after it is delivered
+			}
+			want = append(want, v)
+		}
+		if len(o.jsonVals) > len(want) {
+			sig := "extra-message-delivered"
+			if len(want) == nmsg {
+				sig = "clean-end-of-partial-message"
+			}
+			rep.miss(sig, id, fmt.Sprintf("wsjson.Read returned %d values, %d messages were received completely; extra=%.40v", len(o.jsonVals), len(want), o.jsonVals[len(want)]))
+			return
+		}
+		if len(o.jsonVals) < len(want) {
+			rep.miss("msg-missing", id, fmt.Sprintf("wsjson.Read returned %d values, %d messages were received completely; final err=%v", len(o.jsonVals), len(want), o.finalErr))
+			return
+		}
+		for k := range want {
+			if !reflect.DeepEqual(want[k], o.jsonVals[k]) {
+				rep.miss("msg-bytes", id, fmt.Sprintf("wsjson value %d: got %.40v want %.40v", k+1, o.jsonVals[k], want[k]))
+				return
+			}
+		}
+	case "netconn":
+		var whole []byte
+		mismatch := false
+		for _, e := range exp.Msgs {
+			if e.O != "msg" {
+				continue
+			}
+			if e.T != typName(ncType) {
+				mismatch = true // the adapter fails at a message of the other type
+				break
+			}
+			whole = append(whole, cs.msgBytes(ls, e.Fr)...)
+		}
+		allowed := whole
+		if !mismatch && len(exp.Partial) > 0 && exp.T == typName(ncType) {
+			allowed = append(append([]byte(nil), whole...), cs.msgBytes(ls, exp.Partial)...)
+		}
+		if len(o.stream) < len(whole) || !bytes.Equal(o.stream[:len(whole)], whole) {
+			rep.miss("msg-missing", id, fmt.Sprintf("NetConn handed %d bytes %.40q; the complete messages are %d bytes %.40q; err=%v", len(o.stream), o.stream, len(whole), whole, o.finalErr))
+			return
+		}
+		if !bytes.HasPrefix(allowed, o.stream) {
+			rep.miss("partial-not-prefix", id, fmt.Sprintf("NetConn handed %.60q, not a prefix of %.60q", o.stream, allowed))
+			return
+		}
+		if o.finalErr == io.EOF {
+			rep.miss("clean-end-of-partial-message", id, "NetConn.Read reported io.EOF although the transport ended without a close frame")
+			return
+		}
+	}
+}
+
+type finBody struct {
+	fin  bool
+	body string
+}
+
+func finBodies(api string) []finBody {
+	if api == "wsjson" {
+		return []finBody{{false, "json"}, {false, "jsonpad"}}
+	}
+	return []finBody{{false, ""}, {true, ""}}
+}
 
 func checkCut(rep *Report, id caseID, ls []letter, exp *cutExp, cs *concStream, o *recvObs, delivered int) {
 	if o.panicked != "" {
@@ -24,6 +114,10 @@ func checkCut(rep *Report, id caseID, ls []letter, exp *cutExp, cs *concStream, 
 	}
 	if o.pending {
 		rep.miss("pending", id, "reader did not finish within 8s")
+		return
+	}
+	if id.V.API == "wsjson" || id.V.API == "netconn" {
+		checkCutAdapters(rep, id, ls, exp, cs, o, id.ncType)
 		return
 	}
 	expRd := append(append([]rdObs(nil), exp.Msgs...), rdObs{O: "cut", Acc: exp.Partial})
@@ -110,17 +204,29 @@ func init() {
 								var rb int
 								fmt.Sscan(bs, &rb)
 								for _, api := range splitComma(*apis) {
+									adapter := api == "wsjson" || api == "netconn"
 									for _, scale := range scales {
-										if scale > 0 && (rb == 1 || k%3 != 0) {
+										if scale > 0 && (rb == 1 || k%3 != 0 || adapter) {
 											continue // large frames: every third stream, not with 1-byte reads
 										}
-										for _, fin := range []bool{false, true} {
+										if adapter && (ch != "whole" || api == "wsjson" && rb != 512) {
+											continue
+										}
+										for _, fb := range finBodies(api) {
+											fin, body := fb.fin, fb.body
 											// fin: the sender ends the DEFLATE stream of every compressed message with a BFINAL=1 block, so
 											// that the inflater is done before the last frame (e.g. an empty final fragment) has arrived
 											if fin && (mode == "off" || !hasComp(ls) || scale > 0 || api != "reader") {
 												continue
 											}
-											v := variant{Client: client, Mode: mode, Chunk: ch, ReadBuf: rb, API: api, Scale: scale, Final: fin}
+											v := variant{Client: client, Mode: mode, Chunk: ch, ReadBuf: rb, API: api, Scale: scale, Final: fin, Body: body}
+											ncType := websocket.MessageBinary
+											for _, l := range ls {
+												if l.Op == 1 || l.Op == 2 {
+													ncType = websocket.MessageType(l.Op)
+													break
+												}
+											}
 											ls := ls
 											if scale > 0 {
 												ls = lsScaled(ls, scale)
@@ -183,10 +289,10 @@ func init() {
 													}
 												}
 												for _, endErr := range []error{nil, injected} {
-													id := caseID{Names: row.Names, V: v, Seed: *seed, Cut: cut, CutKind: where, EndErr: endErr != nil}
+													id := caseID{Names: row.Names, V: v, Seed: *seed, Cut: cut, CutKind: where, EndErr: endErr != nil, ncType: ncType}
 													cs, exp, endErr, delivered := cs, exp, endErr, delivered
 													jobs <- func(rng *rand.Rand) {
-														rc := recvCfg{v: v, sent: cs.frames, stream: cs.bytes, cutAt: id.Cut, endErr: endErr}
+														rc := recvCfg{v: v, sent: cs.frames, stream: cs.bytes, cutAt: id.Cut, endErr: endErr, ncType: id.ncType}
 														if v.Scale > 0 {
 															unlimited := int64(-1)
 															rc.limit = &unlimited
